@@ -101,7 +101,9 @@ func (t *Tree) feedLeaf(leaf validator, jsonLex lexeme.LexEvent, indexOfLeaf int
 	if done { // validation of node completed
 		parent := leaf.parent()
 		leaf.setParent(nil) // remove the pointer to simplify garbage collection in the future
-		if parent == nil {
+		if parent == nil || t.isLeaf(parent, indexOfLeaf) {
+			// No parent, or another alternative for the same value has already
+			// stepped back to this parent: it must be fed only once.
 			delete(t.leaves, indexOfLeaf)
 		} else {
 			t.leaves[indexOfLeaf] = parent // step back to parent
@@ -121,6 +123,16 @@ func (t *Tree) feedLeaf(leaf validator, jsonLex lexeme.LexEvent, indexOfLeaf int
 	}
 
 	return nil
+}
+
+// isLeaf reports whether v already is a leaf under an index other than except.
+func (t *Tree) isLeaf(v validator, except int) bool {
+	for i, leaf := range t.leaves {
+		if i != except && leaf == v {
+			return true
+		}
+	}
+	return false
 }
 
 func (t *Tree) addLeaf(v validator) {
